@@ -16,3 +16,4 @@ import Anonymongo.Props.Facts.Mapping
 import Anonymongo.Props.Facts.Inits
 import Anonymongo.Props.Facts.Footprint
 import Anonymongo.Props.Facts.AtlasReq
+import Anonymongo.Props.Facts.Vocabulary
